@@ -665,3 +665,146 @@ Proof.
   apply map_ext. intros i. unfold e2e_bytes. cbn [fst snd]. f_equal. f_equal.
   unfold qmsg. rewrite map_map. reflexivity.
 Qed.
+
+(* ========================================================================================== *)
+(* Part C: the universe generated from a list of writes (DATA mode) is well-formed              *)
+(* ========================================================================================== *)
+Section Generator.
+  Variable maxp : nat.                 (* maximum payload per fragment, >= 1 *)
+  Hypothesis Hmaxp : (1 <= maxp)%nat.
+
+  Definition nfrags (w : e2e_msg) : Z := Z.of_nat (length (e2e_frags maxp (em_data w))).
+
+  Lemma e2e_slices_concat : forall fuel d, concat (e2e_slices fuel maxp d) = d.
+  Proof.
+    induction fuel as [|f IH]; intros d; destruct d as [|x t]; cbn [e2e_slices concat]; try reflexivity.
+    - rewrite app_nil_r. reflexivity.
+    - rewrite IH. apply firstn_skipn.
+  Qed.
+
+  Lemma e2e_slices_len : forall fuel d, d <> [] -> (1 <= length (e2e_slices fuel maxp d) <= length d)%nat.
+  Proof.
+    induction fuel as [|f IH]; intros d Hd; destruct d as [|x t]; try congruence; cbn [e2e_slices length].
+    - lia.
+    - destruct (skipn maxp (x :: t)) as [|y r] eqn:Es.
+      + destruct f; cbn [e2e_slices length]; lia.
+      + assert (Hl : (length (skipn maxp (x :: t)) <= length t)%nat).
+        { rewrite skipn_length. cbn [length]. lia. }
+        rewrite Es in Hl. specialize (IH (y :: r) ltac:(discriminate)). lia.
+  Qed.
+
+  (* index of the first fragment of the kl-th message of stream s among ws, counting indices from i *)
+  Fixpoint Tloc (i s : Z) (kl : nat) (ws : list e2e_msg) : Z :=
+    match ws with
+    | [] => 0
+    | w :: t => if em_sid w =? s
+                then match kl with O => i | S kl' => Tloc (i + nfrags w) s kl' t end
+                else Tloc (i + nfrags w) s kl t
+    end.
+
+  Fixpoint own_msg (i sid k : Z) (j : Z) (frs : list (list Z)) : list (Z * (Z * Z * Z)) :=
+    match frs with [] => [] | _ :: t => (i, (sid, k, j)) :: own_msg (i + 1) sid k (j + 1) t end.
+
+  Fixpoint gen_own (i : Z) (cnt : list (Z * Z)) (ws : list e2e_msg) : list (Z * (Z * Z * Z)) :=
+    match ws with
+    | [] => []
+    | w :: t => own_msg i (em_sid w) (e2e_cnt (em_sid w) cnt) 0 (e2e_frags maxp (em_data w)) ++
+                gen_own (i + nfrags w) (e2e_cnt_inc (em_sid w) cnt) t
+    end.
+
+  Lemma e2e_cnt_inc_spec s s' : forall cnt, e2e_cnt s (e2e_cnt_inc s' cnt) = e2e_cnt s cnt + (if s' =? s then 1 else 0).
+  Proof.
+    induction cnt as [|[a n] t IH]; cbn [e2e_cnt_inc e2e_cnt].
+    - destruct (s' =? s); lia.
+    - destruct (a =? s') eqn:E1; cbn [e2e_cnt].
+      + destruct (a =? s) eqn:E2; [replace (s' =? s) with true by lia; lia|replace (s' =? s) with false by lia; lia].
+      + destruct (a =? s) eqn:E2; [replace (s' =? s) with false by lia; lia|exact IH].
+  Qed.
+
+  Lemma own_msg_spec : forall frs i sid k j0 i' s' k' j',
+    In (i', (s', k', j')) (own_msg i sid k j0 frs) ->
+    s' = sid /\ k' = k /\ j0 <= j' < j0 + Z.of_nat (length frs) /\ i' = i + (j' - j0).
+  Proof.
+    induction frs as [|p t IH]; intros i sid k j0 i' s' k' j' H; cbn [own_msg] in H; [destruct H|].
+    destruct H as [H|H].
+    - inversion H; subst. cbn [length]. repeat split; lia.
+    - apply IH in H. cbn [length]. destruct H as (A & B & C & D). repeat split; try assumption; lia.
+  Qed.
+
+  Lemma gen_own_spec : forall ws i cnt i' s k j,
+    In (i', (s, k, j)) (gen_own i cnt ws) ->
+    exists kl w, nth_error (e2e_written s ws) kl = Some w /\ k = e2e_cnt s cnt + Z.of_nat kl /\
+                 0 <= j < nfrags w /\ i' = Tloc i s kl ws + j.
+  Proof.
+    induction ws as [|w t IH]; intros i cnt i' s k j H; cbn [gen_own] in H; [destruct H|].
+    apply in_app_or in H. unfold e2e_written in *. cbn [filter Tloc]. destruct H as [H|H].
+    - apply own_msg_spec in H. destruct H as (-> & -> & Hj & ->). rewrite Z.eqb_refl.
+      exists 0%nat, w. cbn [nth_error]. unfold nfrags. repeat split; lia.
+    - apply IH in H. destruct H as (kl & w' & Hn & Hk & Hj & Hi). rewrite e2e_cnt_inc_spec in Hk.
+      destruct (em_sid w =? s) eqn:Es.
+      + exists (S kl), w'. cbn [nth_error]. repeat split; try assumption; lia.
+      + exists kl, w'. repeat split; try assumption; lia.
+  Qed.
+
+  Variable ws : list e2e_msg.
+  Variable i0 : Z.
+  Hypothesis Hws : Forall (fun w => em_data w <> [] /\ Z.of_nat (length (em_data w)) < 2147483648) ws.
+
+  Definition g_msg (s k : Z) : option e2e_msg := if k <? 0 then None else nth_error (e2e_written s ws) (Z.to_nat k).
+  Definition g_T (s k : Z) : Z := Tloc i0 s (Z.to_nat k) ws.
+  Definition g_nfr (s k : Z) : Z := match g_msg s k with Some w => nfrags w | None => 1 end.
+  Definition g_frag (s k j : Z) : list Z :=
+    match g_msg s k with Some w => nth (Z.to_nat j) (e2e_frags maxp (em_data w)) [] | None => [] end.
+  Definition g_ppi (s k : Z) : Z := match g_msg s k with Some w => em_ppi w | None => 0 end.
+  Definition g_own (i : Z) : option (Z * Z * Z) :=
+    match find (fun p => fst p =? i) (gen_own i0 [] ws) with Some p => Some (snd p) | None => None end.
+  Definition g_U (i : Z) : option rqchunk :=
+    match g_own i with Some (s, k, j) => Some (uchunk g_T g_nfr g_frag g_ppi s k j) | None => None end.
+
+  Lemma nfrags_range w : In w ws -> 1 <= nfrags w < 2147483648.
+  Proof.
+    intros Hw. eapply Forall_forall in Hws; [|exact Hw]. destruct Hws as [Hd Hl].
+    unfold nfrags, e2e_frags. pose proof (e2e_slices_len (length (em_data w)) (em_data w) Hd). lia.
+  Qed.
+
+  Lemma written_in s kl w : nth_error (e2e_written s ws) kl = Some w -> In w ws.
+  Proof. intros H. apply nth_error_In in H. unfold e2e_written in H. apply filter_In in H. tauto. Qed.
+
+  Lemma g_nfr_range s k : 1 <= g_nfr s k < 2147483648.
+  Proof.
+    unfold g_nfr, g_msg. destruct (k <? 0); [lia|].
+    destruct (nth_error (e2e_written s ws) (Z.to_nat k)) as [w|] eqn:E; [|lia].
+    apply nfrags_range. eapply written_in; exact E.
+  Qed.
+
+  Lemma g_wf i c : g_U i = Some c ->
+    exists s k j, g_own i = Some (s, k, j) /\ 0 <= k /\ 0 <= j < g_nfr s k /\ i = g_T s k + j /\
+                  c = uchunk g_T g_nfr g_frag g_ppi s k j.
+  Proof.
+    unfold g_U. destruct (g_own i) as [[[s k] j]|] eqn:Eo; [|discriminate]. intros H; inversion H; subst c.
+    exists s, k, j. split; [reflexivity|].
+    unfold g_own in Eo. destruct (find (fun p => fst p =? i) (gen_own i0 [] ws)) as [[i' t]|] eqn:Ef; [|discriminate].
+    apply find_some in Ef. destruct Ef as [Hin Hi]. cbn [fst snd] in *. inversion Eo; subst t. assert (i' = i) by lia. subst i'.
+    apply gen_own_spec in Hin. destruct Hin as (kl & w & Hn & Hk & Hj & Hi'). cbn [e2e_cnt] in Hk.
+    assert (Ek : Z.to_nat k = kl) by lia.
+    assert (Em : g_msg s k = Some w) by (unfold g_msg; replace (k <? 0) with false by lia; rewrite Ek; exact Hn).
+    unfold g_nfr, g_T. rewrite Em, Ek. repeat split; try lia; try reflexivity.
+  Qed.
+
+  (* the fragments of the k-th message written on s concatenate to its bytes; its PPI is the written one *)
+  Lemma g_message s k w : g_msg s k = Some w ->
+    concat (map (g_frag s k) (js (g_nfr s k))) = em_data w /\ g_ppi s k = em_ppi w.
+  Proof.
+    intros Em. unfold g_ppi, g_nfr. rewrite Em. split; [|reflexivity].
+    transitivity (concat (e2e_frags maxp (em_data w))); [|apply e2e_slices_concat].
+    unfold nfrags, js. rewrite Nat2Z.id. f_equal.
+    set (frs := e2e_frags maxp (em_data w)).
+    rewrite (map_ext (g_frag s k) (fun j => nth (Z.to_nat j) frs [])) by (intros j; unfold g_frag; rewrite Em; reflexivity).
+    rewrite map_map.
+    apply (nth_ext _ _ (nth (Z.to_nat (Z.of_nat 0)) frs []) []).
+    - rewrite map_length, seq_length. reflexivity.
+    - intros n Hn. rewrite map_length, seq_length in Hn.
+      rewrite (map_nth (fun x => nth (Z.to_nat (Z.of_nat x)) frs []) (seq 0 (length frs)) 0%nat n).
+      rewrite seq_nth by exact Hn. rewrite Nat2Z.id. reflexivity.
+  Qed.
+End Generator.
